@@ -67,7 +67,7 @@ def build_fcp(decls, default_impls=False):
         elif d[0] == "enum":
             fcp.enums.append(Enum(name=d[1], enumeration=[Enumeration(name=n, value=v, meta=meta(i)) for n, v in d[2]], meta=meta(i)))
         elif d[0] == "impl":
-            _, proto, typ, as_name, fields, signals = d
+            _, proto, typ, as_name, fields, signals = d[:6]
             fcp.impls.append(
                 Impl(
                     name=as_name if as_name is not None else typ,
